@@ -77,11 +77,11 @@ CHECKS = {
                 note="Expected getter values are the builder's field values, so symmetric endianness/offset errors do not cancel.",
                 technique="bounded exhaustive enumeration of inputs x decoder pre-states against an independent reference parser"),
     "C15": dict(level="model_checking", design="4/C15",
-                text="TECMP frames from an independent builder: CAN/CAN-FD data length 0..64 (and 7 consistent lengths above 64) x arbitration ids x CRC trailers, LIN x all 256 pids, capture-module status x serials x version bytes (short payloads x announced vendor lengths), bus status with 0..40 entries (distinct, and repeating: adjacent identical, first = last, all identical, all zero), each kind with inner lengths inconsistent with the buffer, every single bit of the data-flags and device-flags words alone, supported data messages followed by further entries (well-formed, lying, empty entry headers; header-like and zero trails: the first entry's packet is judged), and all 256 message types x data types x payload lengths x length bytes (thorough: all 65536 data types); decoded packets are compared with an independent conversion, unsupported/inconsistent messages must yield nothing.",
+                text="TECMP frames from an independent builder: CAN/CAN-FD data length 0..64 (and 7 consistent lengths above 64) x arbitration ids x CRC trailers, LIN x all 256 pids, capture-module status x serials x version bytes x every value of every one-byte code of the status header, data messages of every data type 0x0000..0x01FF (short payloads x announced vendor lengths), bus status with 0..40 entries (distinct, and repeating: adjacent identical, first = last, all identical, all zero), each kind with inner lengths inconsistent with the buffer, every single bit of the data-flags and device-flags words alone, supported data messages followed by further entries (well-formed, lying, empty entry headers; header-like and zero trails: the first entry's packet is judged), and all 256 message types x data types x payload lengths x length bytes (thorough: all 65536 data types); decoded packets are compared with an independent conversion, unsupported/inconsistent messages must yield nothing.",
                 note="CAN CRC values, frames with bytes after the declared payload, partial bus-status entries and status frames with data type FF00 are outside what the property fixes and are only checked for memory safety (C02).",
                 technique="bounded exhaustive enumeration of inputs against an independent reference conversion"),
     "C11": dict(level="model_checking", design="4/C11",
-                text="Table-driven: 24 classes, ~235 setter/getter pairs; for every field ALL values (<= 16 bits) or single bits + byte lanes + extremes + values relative to the current state (wider), from default / all-zero / all-ones / counting prior object states (payload classes also with data bytes): after set, get returns the value, every non-overlapping field's getter is unchanged and raw bytes are unchanged outside the bits an independent layout table assigns to the field; booleans additionally through set/clear sequences, every flag setter with every mask value (incl. multi-bit masks) from every prior flag state, and Packet::setPayload from every prior state (nothing or any of 23 payloads held, four of which report bus errors) x 23 new payloads, the header fields compared with what was written. Every payload class table also carries the base-class type fields (message type, raw payload type byte). Payload classes are exercised both as stand-alone objects and as the object a Packet holds after setPayload (reached through getPayload and a cast); every getter is called on the object before the write.",
+                text="Table-driven: 24 classes, ~235 setter/getter pairs; for every field ALL values (<= 16 bits) or single bits + byte lanes + extremes + values relative to the current state (wider), from default / all-zero / all-ones / counting / semantically consistent (valid LIN parity and checksum, DLC matching the length) prior object states (payload classes also with data bytes): after set, get returns the value, every non-overlapping field's getter is unchanged and raw bytes are unchanged outside the bits an independent layout table assigns to the field; booleans additionally through set/clear sequences, every flag setter with every mask value (incl. multi-bit masks) from every prior flag state, and Packet::setPayload from every prior state (nothing or any of 23 payloads held, four of which report bus errors) x 23 new payloads, the header fields compared with what was written. Every payload class table also carries the base-class type fields (message type, raw payload type byte). Payload classes are exercised both as stand-alone objects and as the object a Packet holds after setPayload (reached through getPayload and a cast); every getter is called on the object before the write.",
                 note="Wide fields are covered bit-lane-wise, which decides bit-sliced accessors (byte swaps, shifts, masks); the overlap relation (legitimate aliases) is derived from the independent layout table.",
                 technique="bounded exhaustive enumeration class x field x value x prior state on the real objects"),
     "C12": dict(level="model_checking", design="4/C12",
